@@ -128,7 +128,7 @@ def _loop_local(loop: ast.AST) -> Iterator[ast.AST]:
 Guard = Tuple[ast.AST, bool]
 
 
-def guards(func: ast.AST, node: ast.AST) -> List[Guard]:
+def guards(func: ast.AST, node: ast.AST, within: Optional[ast.AST] = None) -> List[Guard]:
     """Tests (expr, polarity) known to hold when node is evaluated.
 
     Sources: enclosing if/while tests; preceding sibling `if c: <always leaves>` (gives
@@ -138,20 +138,22 @@ def guards(func: ast.AST, node: ast.AST) -> List[Guard]:
     same iteration, which is what the rules ask about.
     """
     res: List[Guard] = []
+    inside = within is None
     for container, field, blk, idx in block_path(func, node):
+        if not inside:
+            # only tests evaluated inside `within` count (control dependence on a test
+            # made after entering that region)
+            if container is within:
+                inside = True
+                for prev in blk[:idx]:
+                    _sibling_guard(prev, res)
+            continue
         if isinstance(container, ast.If):
             res.append((container.test, field == "body"))
         elif isinstance(container, ast.While) and field == "body":
             res.append((container.test, True))
         for prev in blk[:idx]:
-            if isinstance(prev, ast.If):
-                bl, ol = always_leaves(prev.body), bool(prev.orelse) and always_leaves(prev.orelse)
-                if bl and not ol:
-                    res.append((prev.test, False))
-                elif ol and not bl:
-                    res.append((prev.test, True))
-            elif isinstance(prev, ast.Assert):
-                res.append((prev.test, True))
+            _sibling_guard(prev, res)
     # expression-level guards
     cur = node
     for a in ancestors(node):
@@ -179,6 +181,17 @@ def guards(func: ast.AST, node: ast.AST) -> List[Guard]:
     return res
 
 
+def _sibling_guard(prev: ast.stmt, res: List[Guard]) -> None:
+    if isinstance(prev, ast.If):
+        bl, ol = always_leaves(prev.body), bool(prev.orelse) and always_leaves(prev.orelse)
+        if bl and not ol:
+            res.append((prev.test, False))
+        elif ol and not bl:
+            res.append((prev.test, True))
+    elif isinstance(prev, ast.Assert):
+        res.append((prev.test, True))
+
+
 def flatten_guards(gs: List[Guard]) -> List[Guard]:
     """Split conjunctions that hold positively / disjunctions that hold negatively,
     and strip `not`."""
@@ -197,8 +210,8 @@ def flatten_guards(gs: List[Guard]) -> List[Guard]:
     return out
 
 
-def guard_texts(func: ast.AST, node: ast.AST) -> Set[Tuple[str, bool]]:
-    return {(" ".join(unparse(e).split()), p) for e, p in flatten_guards(guards(func, node))}
+def guard_texts(func: ast.AST, node: ast.AST, within: Optional[ast.AST] = None) -> Set[Tuple[str, bool]]:
+    return {(" ".join(unparse(e).split()), p) for e, p in flatten_guards(guards(func, node, within))}
 
 
 def dominates(func: ast.AST, a: ast.stmt, b: ast.AST) -> bool:
